@@ -37,6 +37,11 @@ def load_repo():
     import synapgrad  # noqa: F401
     import synapgrad.nn  # noqa: F401
     import synapgrad.optim  # noqa: F401
+    import synapgrad.nn.utils.data  # noqa: F401  (imported up front so that the np proxy can be bound in it)
+    try:
+        import synapgrad.nn.utils.train  # noqa: F401  (needs matplotlib / sklearn; only C20 uses it)
+    except Exception:  # noqa: BLE001
+        pass
     mod = sys.modules["synapgrad"]
     assert os.path.abspath(mod.__file__).startswith(os.path.abspath(REPO)), mod.__file__
     return mod
